@@ -13,7 +13,7 @@ ASSUMPTIONS = [
     "scope: ONLY 'closing a connection … completes every pending … datagram, open and accept future with an error instead of leaving it "
     "hanging', at the level of compio-quic/src/connection.rs: ConnectionState::{terminate, close, wake}, wake_all_streams, "
     "ConnectionInner::{state, try_state}, Connection::{poll_recv_datagram, poll_open_stream, poll_accept_stream}, and of "
-    "send_stream.rs / recv_stream.rs: SendStream::{stopped, execute_poll_write}, RecvStream::received_reset, from MIR; "
+    "send_stream.rs / recv_stream.rs: SendStream::{stopped, execute_poll_write}, RecvStream::{received_reset, execute_poll_read}, from MIR; "
     "quinn-proto is not executed (its queries answer nothing / something by choice)",
     "the list of ConnectionState's fields is parsed from the struct definition in the source on every run; every field whose type mentions "
     "Waker must be emptied and its wakers woken by terminate (a container added later and not drained is reported; an unknown "
@@ -22,8 +22,7 @@ ASSUMPTIONS = [
     "terminate drains, it is woken and its next poll returns the stored error) or follows it (try_state returns the error before "
     "anything is registered); the check decides both halves, one call each",
     "NOT covered: everything else in C16 — ordered exactly-once delivery, finish / end-of-stream, flow control, datagrams not interfering "
-    "(all quinn-proto + real UDP sockets + the connection worker); RecvStream's read path (execute_poll_read: a generic closure over "
-    "quinn-proto's Chunks; same registration shape, read, not executed); endpoint close; the worker noticing the close",
+    "(all quinn-proto + real UDP sockets + the connection worker); endpoint close; the worker noticing the close",
 ]
 
 
